@@ -546,11 +546,23 @@ pub fn ref_cidr(ip: &str, net: &str) -> Option<bool> {
     }
 }
 
+thread_local! {
+    static UNKNOWN_SUBTERM: std::cell::Cell<bool> = std::cell::Cell::new(false);
+}
+
 /// every dynamic error some evaluation order could hit: evaluate each sub-term on its own
 fn possible_errors(e: &E, env: &Env, props: &ContextProps, out: &mut BTreeSet<Dyn>) {
     let mut it = Interp { props, maybe: BTreeSet::new(), fuel: 20_000 };
-    if let Err(RErr::Dyn(d)) = it.eval(e, env) {
-        out.insert(d);
+    match it.eval(e, env) {
+        Err(RErr::Dyn(d)) => {
+            out.insert(d);
+        }
+        // outside the reference fragment (opaque string, ...): any dynamic error of the operators
+        // below this term cannot be excluded
+        Err(RErr::Stuck(_)) => {
+            UNKNOWN_SUBTERM.with(|u| u.set(true));
+        }
+        Ok(_) => {}
     }
     out.extend(it.maybe.iter().cloned());
     let mut rec = |x: &E, env: &Env| possible_errors(x, env, props, out);
@@ -789,6 +801,25 @@ impl<'a> Gen<'a> {
             let body = self.gen(ty, d);
             self.vars.truncate(base);
             return E::Let(binds, Box::new(body));
+        }
+        if generic == 5 && self.tape.pick(2) == 0 {
+            // a call with the wrong number of arguments must be rejected at load, whatever the types
+            self.injected = true;
+            let f = ["to_string", "to_integer", "split", "strcat", "cidr_match"][self.tape.pick(5)];
+            let n = [0usize, 2, 3][self.tape.pick(3)];
+            let right = match f {
+                "split" | "cidr_match" => 2,
+                _ => 1,
+            };
+            let n = if n == right { n + 1 } else { n };
+            let args: Vec<E> = (0..n).map(|_| self.leaf(&Ty::Str)).collect();
+            return call(f, args);
+        }
+        if generic == 2 && self.tape.pick(3) == 0 {
+            // index into an array that is itself computed (let / if / split), not a literal
+            let arr = self.gen(&Ty::Arr(Box::new(ty.clone())), d);
+            let idx = E::Int(self.tape.pick(2) as u64, 0);
+            return E::Index(Box::new(arr), Box::new(idx));
         }
         if generic == 2 {
             // index into an array of this type
@@ -1067,7 +1098,9 @@ pub fn check_program(e: &E, env: &EnvSpec, consumer: Consumer, info: &mut CaseIn
     };
     let t_pe = std::time::Instant::now();
     let mut possible = BTreeSet::new();
+    UNKNOWN_SUBTERM.with(|u| u.set(false));
     possible_errors(e, &Env(None), &props, &mut possible);
+    let unknown_subterm = UNKNOWN_SUBTERM.with(|u| u.get());
     T_PE.fetch_add(t_pe.elapsed().as_micros() as u64, std::sync::atomic::Ordering::Relaxed);
     let mut it = Interp { props: &props, maybe: BTreeSet::new(), fuel: 50_000 };
     let reference = it.eval(e, &Env(None));
@@ -1084,7 +1117,7 @@ pub fn check_program(e: &E, env: &EnvSpec, consumer: Consumer, info: &mut CaseIn
                 ),
                 Some(d) => {
                     info.class(format!("dynamic-error:{:?}", d));
-                    if !possible.contains(&d) && !matches!(reference, Err(RErr::Stuck(_))) {
+                    if !possible.contains(&d) && !unknown_subterm && !matches!(reference, Err(RErr::Stuck(_))) {
                         fail!(
                             format!("spurious-dynamic-error:{:?}:{}", d, shape),
                             "evaluation failed with {:?} ({}) but no sub-term can produce it — source {:?}",
